@@ -5,6 +5,7 @@ package main
 
 import (
 	"fmt"
+	"regexp"
 	"go/token"
 	"go/types"
 	"strings"
@@ -114,6 +115,23 @@ func (vc *VC) libCall(fr *frame, n *Node, x *ssa.Call, callee *ssa.Function, arg
 		sub := vc.strSub(args[0].T, fmt.Sprintf("(strlen %s)", args[1].T), fmt.Sprintf("(strlen %s)", args[0].T))
 		vc.defVal(n, x, fmt.Sprintf("(ite (strhasprefix %s %s) %s %s)", args[0].T, args[1].T, sub, args[0].T))
 		return true
+	case "(*regexp.Regexp).FindString":
+		trust("(*regexp.Regexp).FindString: the result is a substring (no longer than the argument)")
+		rs := vc.freshResults(n, x.Name(), sig)
+		vc.assume(fmt.Sprintf("(<= (strlen %s) (strlen %s))", rs[0].T, args[1].T))
+		vc.bindResult(n, x, sig, rs)
+		return true
+	case "strings.Fields":
+		trust("strings.Fields: every returned field is non-empty")
+		rs := vc.freshResults(n, x.Name(), sig)
+		r := rs[0].T
+		wm := vc.decl("wm.c", "Int")
+		vc.assume(fmt.Sprintf("(>= %s %s)", wm, st.wm))
+		st.wm = wm
+		strT := sig.Results().At(0).Type().Underlying().(*types.Slice).Elem()
+		vc.emit(fmt.Sprintf("(assert (forall ((j Int)) (! (=> (and (<= 0 j) (< j (s.len %s))) (>= (strlen %s) 1)) :pattern (%s))))", r, vc.load(st, e.elemPtr(r, "j"), strT), e.elemPtr(r, "j")))
+		vc.bindResult(n, x, sig, rs)
+		return true
 	case "fmt.Errorf", "errors.New":
 		trust(full + " returns a non-nil error")
 		rs := vc.freshResults(n, x.Name(), sig)
@@ -165,6 +183,38 @@ func (vc *VC) libCall(fr *frame, n *Node, x *ssa.Call, callee *ssa.Function, arg
 		wm := vc.decl("wm.c", "Int")
 		vc.assume(fmt.Sprintf("(>= %s %s)", wm, st.wm))
 		st.wm = wm
+		vc.bindResult(n, x, sig, rs)
+		return true
+	case "(*regexp.Regexp).FindStringSubmatch", "(*regexp.Regexp).FindAllStringSubmatch", "(*regexp.Regexp).FindStringSubmatchIndex":
+		// result is nil or (each element) has 1+NumSubexp entries (2*(1+NumSubexp) for the Index form);
+		// NumSubexp is read off the pattern when the receiver is a package variable set by MustCompile(constant)
+		trust(full + ": nil or slices of length 1+NumSubexp (NumSubexp from the constant pattern, else an unknown non-negative number)")
+		nsub := vc.regexpGroups(x.Call.Args[0])
+		var want string
+		if nsub >= 0 {
+			want = fmt.Sprint(nsub + 1)
+		} else {
+			want = "(+ 1 " + e.uf("re.nsub", []string{"Ptr"}, "Int", args[0].T) + ")"
+			vc.assume(fmt.Sprintf("(>= %s 0)", e.uf("re.nsub", []string{"Ptr"}, "Int", args[0].T)))
+		}
+		if strings.HasSuffix(full, "Index") {
+			want = "(* 2 " + want + ")"
+		}
+		rs := vc.freshResults(n, x.Name(), sig)
+		r := rs[0].T
+		wm := vc.decl("wm.c", "Int")
+		vc.assume(fmt.Sprintf("(>= %s %s)", wm, st.wm))
+		st.wm = wm
+		if strings.Contains(full, "FindAll") {
+			// [][]string: every element has the group count; at most n elements when n >= 0
+			inner := sig.Results().At(0).Type().Underlying().(*types.Slice).Elem()
+			vc.emit(fmt.Sprintf("(assert (forall ((j Int)) (! (=> (and (<= 0 j) (< j (s.len %s))) (= (s.len %s) %s)) :pattern (%s))))", r, vc.load(st, e.elemPtr(r, "j"), inner), want, e.elemPtr(r, "j")))
+			if len(args) > 2 {
+				vc.assume(fmt.Sprintf("(=> (>= %s 0) (<= (s.len %s) %s))", args[2].T, r, args[2].T))
+			}
+		} else {
+			vc.assume(fmt.Sprintf("(or (= (s.arr %s) 0) (= (s.len %s) %s))", r, r, want))
+		}
 		vc.bindResult(n, x, sig, rs)
 		return true
 	case "(*regexp.Regexp).MatchString":
@@ -266,4 +316,67 @@ func (e *Encoder) declJoin() {
 	e.addPre("strjoin.part", "(declare-fun strjoin.part (Str Int) Str)")
 	e.addPre("strjoin.ax", "(assert (forall ((a (Array Int Str)) (n Int) (s Str)) (! (=> (>= n 0) (= (strjoin.len (strjoin a n s)) n)) :pattern ((strjoin a n s)))))\n"+
 		"(assert (forall ((a (Array Int Str)) (n Int) (s Str) (j Int)) (! (=> (and (<= 0 j) (< j n)) (= (strjoin.part (strjoin a n s) j) (select a j))) :pattern ((strjoin.part (strjoin a n s) j)))))")
+}
+
+// regexpGroups: number of capture groups of the pattern a regexp value was compiled from, when the value
+// is a load of a package-level variable initialised by regexp.MustCompile(<constant>); -1 otherwise.
+func (vc *VC) regexpGroups(v ssa.Value) int {
+	u, ok := v.(*ssa.UnOp)
+	if !ok {
+		return -1
+	}
+	g, ok := u.X.(*ssa.Global)
+	if !ok || g.Pkg == nil {
+		return -1
+	}
+	initFn := g.Pkg.Func("init")
+	if initFn == nil {
+		return -1
+	}
+	count := 0
+	res := -1
+	for _, b := range initFn.Blocks {
+		for _, in := range b.Instrs {
+			st, ok := in.(*ssa.Store)
+			if !ok || st.Addr != g {
+				continue
+			}
+			count++
+			call, ok := st.Val.(*ssa.Call)
+			if !ok {
+				return -1
+			}
+			callee := call.Call.StaticCallee()
+			if callee == nil || (callee.String() != "regexp.MustCompile") {
+				return -1
+			}
+			c, ok := call.Call.Args[0].(*ssa.Const)
+			if !ok || c.Value == nil {
+				return -1
+			}
+			re, err := regexp.Compile(constString(c.Value))
+			if err != nil {
+				return -1
+			}
+			res = re.NumSubexp()
+		}
+	}
+	// the variable must not be assigned anywhere else in the package
+	if count != 1 {
+		return -1
+	}
+	for _, m := range g.Pkg.Members {
+		f, ok := m.(*ssa.Function)
+		if !ok || f == initFn {
+			continue
+		}
+		for _, b := range f.Blocks {
+			for _, in := range b.Instrs {
+				if st, ok := in.(*ssa.Store); ok && st.Addr == g {
+					return -1
+				}
+			}
+		}
+	}
+	return res
 }
